@@ -112,6 +112,7 @@ func (e *Engine) unop(st *State, th *Thread, fr *Frame, in *ssa.UnOp) {
 	switch in.Op {
 	case token.MUL:
 		v := e.load(st, th, x.(Ptr), in.Pos())
+		v = e.pun(st, v, in.Type())
 		e.setReg(st, th, in, v)
 	case token.NOT:
 		e.setReg(st, th, in, tb.Not(x.(*Term)))
@@ -146,6 +147,7 @@ func (e *Engine) execIndex(st *State, th *Thread, fr *Frame, in *ssa.Index) {
 		if !e.decide(st, e.tb.ULt(idx, a.Len)) {
 			e.raiseRuntime(st, th, "index out of range")
 		}
+		a = e.sres(st, a)
 		e.setReg(st, th, in, e.tb.ArrRead(a.Arr, e.tb.Add(a.Off, idx)))
 	default:
 		panic(&Unsupported{fmt.Sprintf("Index on %T", x)})
@@ -161,6 +163,7 @@ func (e *Engine) execLookup(st *State, th *Thread, fr *Frame, in *ssa.Lookup) {
 		if !e.decide(st, e.tb.ULt(idx, a.Len)) {
 			e.raiseRuntime(st, th, "index out of range")
 		}
+		a = e.sres(st, a)
 		e.setReg(st, th, in, e.tb.ArrRead(a.Arr, e.tb.Add(a.Off, idx)))
 	case MapV:
 		k := e.get(st, fr, in.Index)
@@ -250,7 +253,7 @@ func (e *Engine) execSlice(st *State, th *Thread, fr *Frame, in *ssa.Slice) {
 			hi = a.Len
 		}
 		check(lo, hi, a.Len, a.Len)
-		e.setReg(st, th, in, StrV{Arr: a.Arr, Off: tb.Add(a.Off, lo), Len: tb.Sub(hi, lo)})
+		e.setReg(st, th, in, StrV{Arr: a.Arr, Off: tb.Add(a.Off, lo), Len: tb.Sub(hi, lo), Alias: a.Alias})
 	case SliceV:
 		if hi == nil {
 			hi = a.Len
@@ -327,6 +330,7 @@ func (e *Engine) execMakeSlice(st *State, th *Thread, fr *Frame, in *ssa.MakeSli
 func (e *Engine) bytesOf(st *State, v Value) (*ByteArr, *Term, *Term) {
 	switch a := v.(type) {
 	case StrV:
+		a = e.sres(st, a)
 		return a.Arr, a.Off, a.Len
 	case SliceV:
 		if a.Obj == 0 {
@@ -517,6 +521,7 @@ func (e *Engine) keyConcrete(st *State, k Value) Value {
 		}
 		return x
 	case StrV:
+		x = e.sres(st, x)
 		if s, ok := x.constString(); ok {
 			return StrV{Arr: e.tb.ArrLit(s), Off: e.tb.Int64(0), Len: e.tb.Int64(int64(len(s)))}
 		}
@@ -710,4 +715,59 @@ func (e *Engine) writeCellBytes(st *State, o *Object, d SliceV, at *Term, src *B
 		na.E[base+i] = vals[i]
 	}
 	o.V = storePath(o.V, d.Base, na)
+}
+
+// sres resolves an aliasing string (StrV.Alias) to the bytes its memory holds now.
+func (e *Engine) sres(st *State, s StrV) StrV {
+	if s.Alias == 0 {
+		return s
+	}
+	o := st.obj(s.Alias)
+	if o.Kind != OBytes {
+		panic(&Unsupported{"string aliasing a non-byte object"})
+	}
+	return StrV{Arr: o.Arr, Off: s.Off, Len: s.Len}
+}
+
+// sresDeep resolves aliasing strings inside interface values (map keys, comparisons).
+func (e *Engine) sresDeep(st *State, v Value) Value {
+	switch x := v.(type) {
+	case StrV:
+		return e.sres(st, x)
+	case IfaceV:
+		if s, ok := x.V.(StrV); ok && s.Alias != 0 {
+			return IfaceV{T: x.T, V: e.sres(st, s)}
+		}
+	}
+	return v
+}
+
+// pun reinterprets a value loaded through a pointer obtained by an unsafe cast: a slice header read as a string
+// (the string then aliases the slice's memory) and a string header read as a byte slice.
+func (e *Engine) pun(st *State, v Value, t types.Type) Value {
+	switch x := v.(type) {
+	case SliceV:
+		if b, ok := t.Underlying().(*types.Basic); ok && b.Info()&types.IsString != 0 {
+			if x.Obj == 0 {
+				return StrV{Arr: e.tb.ArrZero(), Off: e.tb.Int64(0), Len: x.Len}
+			}
+			if st.obj(x.Obj).Kind != OBytes {
+				panic(&Unsupported{"string view of a non-byte object"})
+			}
+			return StrV{Off: x.Off, Len: x.Len, Alias: x.Obj}
+		}
+	case StrV:
+		if sl, ok := t.Underlying().(*types.Slice); ok {
+			if b, ok := sl.Elem().Underlying().(*types.Basic); ok && b.Kind() == types.Uint8 {
+				if x.Alias != 0 {
+					return SliceV{Obj: x.Alias, Off: x.Off, Len: x.Len, Cap: x.Len}
+				}
+				// bytes of an ordinary string: a private copy (writing through it is undefined in Go anyway)
+				id := e.allocBytes(st, e.tb.ArrCopy(e.tb.ArrZero(), e.tb.Int64(0), x.Arr, x.Off, x.Len), x.Len)
+				st.Heap[id].Site = "unsafe string bytes"
+				return SliceV{Obj: id, Off: e.tb.Int64(0), Len: x.Len, Cap: x.Len}
+			}
+		}
+	}
+	return v
 }
